@@ -35,7 +35,7 @@ def run_one(patch, props, allprops=False, tier='quick'):
     res = {'patch': patch, 'tests': t.stdout.strip().splitlines()[-1] if t.stdout.strip() else '', 'tests_ok': tests_ok, 'checks': {}}
     todo = ALL if allprops else props
     for pid in todo:
-        env = dict(os.environ, PV_REPO=W, PV_EVIDENCE_DIR=os.path.join(SCR, 'evidence'), PV_OUT=os.path.join(SCR, 'out'), PV_SHRINK='0')
+        env = dict(os.environ, PV_REPO=W, PV_EVIDENCE_DIR=os.path.join(SCR, 'evidence'), PV_OUT=os.path.join(SCR, 'out'), PV_SHRINK='0', PV_FAILFAST='1')
         t0 = time.time()
         c = subprocess.run([os.path.join(ROOT, 'check'), pid, '--tier', tier], stdout=subprocess.PIPE, stderr=subprocess.STDOUT, text=True, env=env)
         viol = [l for l in c.stdout.splitlines() if l.startswith('VIOLATION')]
